@@ -198,6 +198,18 @@ impl Prop for C05 {
                 })
                 .map(|(i, _)| pl.ord[i])
                 .min();
+            // a comment between `strict` and `private`/`protected` splits the two words over two lines
+            let strict_comment_ord: Option<usize> = (1..lay.pieces.len())
+                .filter(|&i| {
+                    matches!(lay.pieces[i].kind, crate::gen::layout::PieceKind::LineComment | crate::gen::layout::PieceKind::BlockComment)
+                        && lay.pieces[i - 1].text.eq_ignore_ascii_case("strict")
+                        && matches!(lay.pieces[i - 1].kind, crate::gen::layout::PieceKind::Tok(t) if prog.toks[t].kind == crate::gen::gram::GK::Keyword)
+                })
+                .filter_map(|i| match lay.pieces[i - 1].kind {
+                    crate::gen::layout::PieceKind::Tok(t) => Some(pl.ord[t]),
+                    _ => None,
+                })
+                .min();
             let mut findings = vec![];
             for b in &prog.blocks {
                 check_block(prog, b, &pl, &cfg, &mut findings, &mut out);
@@ -215,6 +227,8 @@ impl Prop for C05 {
                     "anon-routine-in-raise".to_string()
                 } else if strict_ident_ord.is_some_and(|o| f.ord >= o) {
                     "strict-identifier-in-type-body".to_string()
+                } else if strict_comment_ord.is_some_and(|o| f.ord >= o) && matches!(f.kind, BlockKind::Visibility | BlockKind::TypeBody | BlockKind::DeclSection) {
+                    "comment-between-strict-and-visibility".to_string()
                 } else {
                     f.class.to_string()
                 };
